@@ -1063,6 +1063,12 @@ reg("cpu", "cuda", "detach", "contiguous", "requires_grad_", "detach_", "pin_mem
 @reg("propset_data")
 def _set_data(a, v):
     ev = E(v)
+    if not isinstance(a, SymTensor):
+        # `real_param.data = symbolic_tensor`: the real tensor keeps its storage, its effective content is shadowed
+        if tuple(ev.shape) != tuple(a.shape):
+            raise Unsupported(".data assignment with a different shape onto a real tensor")
+        SHADOW[a.data_ptr()] = (a, np.array(ev, dtype=object, copy=True))
+        return None
     if tuple(ev.shape) != tuple(a._e.shape):
         raise Unsupported(".data assignment with a different shape on a SymTensor")
     a._e = ev
@@ -1211,12 +1217,10 @@ def _to_real_index(idx):
 
 @reg("__setitem__")
 def _setitem(a, idx, v):
-    if not isinstance(a, SymTensor):
-        raise Unsupported("storing symbolic values into a real tensor (make the destination a SymTensor)")
     ev = E(v)
     if isinstance(ev, np.ndarray) and ev.ndim == 0:
         ev = ev[()]
-    a._e[_cidx_all(idx)] = ev
+    dest(a)[_cidx_all(idx)] = ev        # a real destination is shadowed (see SHADOW)
     return None
 
 
